@@ -225,3 +225,10 @@ GAS_CLASS = {
     "high": ("JUMPI",),
 }
 GAS_VALUE = {"zero": 0, "base": 2, "verylow": 3, "low": 5, "mid": 8, "high": 10}
+
+
+# Byte size of the solc assembly items that are not plain opcodes (libevmasm AssemblyItem::bytesRequired with 2-byte addresses):
+# PushTag / PushSub / PushData = 1 + address length; PushSubSize / PushProgramSize = 1 + 4; PushLibraryAddress /
+# PushDeployTimeAddress = 1 + 20; PushImmutable = 1 + 32; a tag itself emits the JUMPDEST that is listed separately.
+ASM_ITEM_SIZE = {"PUSH [tag]": 3, "PUSH data": 3, "PUSH [$]": 3, "PUSH #[$]": 5, "PUSHSIZE": 5, "PUSHLIB": 21, "PUSHDEPLOYADDRESS": 21, "PUSHIMMUTABLE": 33,
+                 "PUSH0": 1, "tag": 0}
